@@ -158,3 +158,91 @@ def place(mjm, qb, n, dlist, gA=0, gB=1):
     q[adr : adr + 3] = t
     qs.append(q)
   return qs, sA, sB0, pA, pB0
+
+
+# ------------------------------------------------------------------------------- scenario -> built scene (C04/C18/C20)
+
+HF = dict(nrow=3, ncol=3, size=(0.3, 0.25, 0.12, 0.05), elev=(0.1, 0.4, 0.2, 0.5, 1.0, 0.6, 0.3, 0.7, 0.2))
+
+
+def option_xml(scn, extra=""):
+  flags = ""
+  if not scn.get("multiccd", 1):
+    flags += ' multiccd="disable"'
+  s = f"<flag{flags}/>" if flags else ""
+  return f"<option {extra}>{s}</option>" if (s or extra) else ""
+
+
+def build_pair(scn):
+  """Pair scenario -> dict(mjm, qs, cases, sA, n, static, moving) or dict(outcome=...)."""
+  from mc import util
+
+  ta, tb = (scn["tb"], scn["ta"]) if scn.get("swap") else (scn["ta"], scn["tb"])
+  v, margin, gap = scn["variant"], scn["margin"], scn["gap"]
+  qa, qb, n = orientation(scn["orient"], v)
+  if ta == "plane":
+    n = quat2mat(qa)[:, 2]
+  xml = scene_xml(ta, tb, qa, margin, gap, v, option=option_xml(scn))
+  mjm, err = util.try_load(xml)
+  if mjm is None:
+    return dict(outcome="rejected_by_compiler", info=err)
+  cases = d_cases(margin, gap)
+  qs, sA, sB0, pA, pB0 = place(mjm, qb, n, [d for _, d in cases])
+  return dict(mjm=mjm, qs=qs, cases=cases, sA=sA, n=n, xml=xml)
+
+
+def build_hfield(scn):
+  """Height-field scenario: B's lowest point along the field's up axis is put d above the central peak."""
+  import mujoco
+
+  from mc import util
+
+  tb, v, margin, gap = scn["tb"], scn["variant"], scn["margin"], scn["gap"]
+  qa, qb, _ = orientation(scn["orient"], v)
+  if scn["orient"] != "generic":
+    qa = (1.0, 0, 0, 0)
+  asset = f'<hfield name="hf" nrow="{HF["nrow"]}" ncol="{HF["ncol"]}" size="{space.fmt(HF["size"])}" elevation="{space.fmt(HF["elev"])}"/>'
+  xml = scene_xml("sphere", tb, qa, margin, gap, v)
+  a0 = xml.index('<geom name="gA"')
+  a1 = xml.index("/>", a0) + 2
+  mg = (f' margin="{0.6 * margin:.6g}"' if margin else "") + (f' gap="{0.25 * gap:.6g}"' if gap else "")
+  gA = f'<geom name="gA" type="hfield" hfield="hf" pos="{space.fmt(A_POS)}" quat="{space.fmt(tuple(qa))}"{mg}/>'
+  xml = xml[:a0] + gA + xml[a1:]
+  if "<asset>" in xml:
+    xml = xml.replace("<asset>", "<asset>" + asset)
+  else:
+    xml = xml.replace("<worldbody>", f"<asset>{asset}</asset><worldbody>")
+  mjm, err = util.try_load(xml)
+  if mjm is None:
+    return dict(outcome="rejected_by_compiler", info=err)
+  R = quat2mat(qa)
+  up = R[:, 2]
+  peak = np.array(A_POS) + R @ np.array([0.0, 0.0, HF["size"][2] * 1.0])
+  cases = d_cases(margin, gap)
+  mjd0 = mujoco.MjData(mjm)
+  mjd0.qpos[3:7] = qb
+  mujoco.mj_kinematics(mjm, mjd0)
+  sB0 = sf.from_model(mjm, mjd0, 1)
+  pB0 = sf.support(sB0, -up)[1]
+  qs = []
+  for _, dd in cases:
+    q = np.array(mjd0.qpos)
+    q[:3] = peak + dd * up - pB0
+    qs.append(q)
+  return dict(mjm=mjm, qs=qs, cases=cases, up=up, xml=xml)
+
+
+def run_worlds(mjm, qs, nconmax=64, configure=None):
+  """put_model + one batched kinematics/collision call with one world per qpos. May raise NotImplementedError."""
+  import mujoco_warp as mjw
+
+  from mc import util
+
+  m = mjw.put_model(mjm)
+  if configure:
+    configure(m)
+  d = mjw.make_data(mjm, nworld=len(qs), nconmax=nconmax)
+  util.set_field(d.qpos, np.array(qs, dtype=np.float32))
+  mjw.kinematics(m, d)
+  mjw.collision(m, d)
+  return m, d
